@@ -1,6 +1,1080 @@
 package main
 
-// Contract stubs for the third-party callees of authservice (jwt, json, http, url, redis, ...).
+// Contract stubs for the third-party callees of authservice (jwt, json, http, url, base64, ...)
+// and the abstract-document part of the vn harness API (JWT, JSON documents, URLs, key sets).
+
+import (
+	"fmt"
+	"go/types"
+	"net/textproto"
+	"net/url"
+	"sort"
+	"strings"
+
+	"golang.org/x/tools/go/ssa"
+)
+
+const (
+	jwxJWT = "github.com/lestrrat-go/jwx/v2/jwt"
+	jwxJWS = "github.com/lestrrat-go/jwx/v2/jws"
+	jwxJWK = "github.com/lestrrat-go/jwx/v2/jwk"
+)
+
+// ---- abstract string functions with functional consistency (Ackermann expansion)
+
+type strFnApp struct {
+	arg, res *Str
+}
+
+// ufStr applies an uninterpreted string->string function. Results range over `alphabet`, have
+// length in [minLen(arg), cap]; same argument => same result; injective if inj.
+func (st *State) ufStr(name string, arg *Str, cap int, alphabet string, inj bool, nonEmptyIfArg bool) *Str {
+	key := "ufstr:" + name
+	var apps []strFnApp
+	if v, ok := st.ghost[key]; ok {
+		apps = v.([]strFnApp)
+	}
+	for _, a := range apps {
+		if a.arg == arg || st.sEq(a.arg, arg).IsTrue() {
+			return a.res
+		}
+	}
+	res := st.newSymStr(name, cap)
+	st.addDef(st.sAllBytes(res, func(b *Term) *Term { return inSet(b, alphabet) }))
+	if nonEmptyIfArg {
+		st.addDef(Implies(Gt(sLen(arg), I(0)), Gt(sLen(res), I(0))))
+	}
+	for _, a := range apps {
+		same := st.sEq(a.arg, arg)
+		if same.IsFalse() && !inj {
+			continue
+		}
+		if inj {
+			st.addDef(Eq(same, st.sEq(a.res, res)))
+		} else {
+			st.addDef(Implies(same, st.sEq(a.res, res)))
+		}
+	}
+	st.ghost[key] = append(append([]strFnApp(nil), apps...), strFnApp{arg, res})
+	return res
+}
+
+const escAlphabet = "ABCDEFGHIJKLMNOPQRSTUVWXYZabcdefghijklmnopqrstuvwxyz0123456789-_.~%+"
+
+func isUnreserved(b byte) bool {
+	return b >= 'a' && b <= 'z' || b >= 'A' && b <= 'Z' || b >= '0' && b <= '9' || b == '-' || b == '_' || b == '.' || b == '~'
+}
+
+// queryEscape models url.QueryEscape: exact on constants; on symbolic input an injective
+// uninterpreted function into the escaped alphabet that is the identity on unreserved strings.
+func (st *State) queryEscape(s *Str) *Str {
+	if c, ok := s.Const(); ok {
+		return constStr(url.QueryEscape(c))
+	}
+	res := st.ufStr("qesc", s, 3*sCap(s), escAlphabet, true, true)
+	key := "qesc-id:" + fmt.Sprintf("%p", res)
+	if _, done := st.ghost[key]; !done {
+		st.ghost[key] = tTrue
+		allUnres := st.sAllBytes(s, func(b *Term) *Term { return inSet(b, "ABCDEFGHIJKLMNOPQRSTUVWXYZabcdefghijklmnopqrstuvwxyz0123456789-_.~") })
+		st.addDef(Implies(allUnres, st.sEq(res, s)))
+		st.addDef(Ge(sLen(res), sLen(s)))
+		st.addDef(Le(sLen(res), Mul(I(3), sLen(s))))
+	}
+	return res
+}
+
+// ---- struct helpers
+
+func fieldIndex(t types.Type, name string) int {
+	s, ok := t.Underlying().(*types.Struct)
+	if !ok {
+		unm("fieldIndex on non-struct %v", t)
+	}
+	for i := 0; i < s.NumFields(); i++ {
+		if s.Field(i).Name() == name {
+			return i
+		}
+	}
+	unm("no field %s in %v", name, t)
+	return -1
+}
+
+func (e *Engine) namedType(pkg, name string) types.Type {
+	p := e.pkgs[pkg]
+	if p == nil {
+		unm("package %s not loaded", pkg)
+	}
+	m := p.Type(name)
+	if m == nil {
+		unm("type %s.%s not found", pkg, name)
+	}
+	return m.Type()
+}
+
+func (e *Engine) newStruct(st *State, t types.Type, fields map[string]Value) Ptr {
+	sv := zero(t).(*StructV)
+	n := &StructV{f: append([]Value(nil), sv.f...)}
+	for k, v := range fields {
+		n.f[fieldIndex(t, k)] = v
+	}
+	return Ptr{obj: st.newObj(n)}
+}
+
+func (st *State) getField(p Ptr, t types.Type, name string) Value {
+	return st.load(p).(*StructV).f[fieldIndex(t, name)]
+}
+
+// ---- registries keyed by string identity
+
+type tokSpec struct {
+	name       string
+	wellFormed *Term // Bool
+	nonceKind  *Term // Int 0..4
+	nonce      *Str
+	naud       *Term // Int 0..2
+	aud        []*Str
+	exp        *Term
+	sigValid   *Term
+	s          *Str
+}
+
+type jsonMember struct {
+	name string
+	kind *Term // 0 absent 1 string 2 integer 3 non-integer/out-of-range number 4 other kind 5 null
+	str  *Str
+	num  *Term
+}
+
+type jsonDoc struct {
+	name    string
+	kind    *Term // 0 malformed 1 null 2 non-object value 3 object
+	members []jsonMember
+	s       *Str
+}
+
+type urlSpec struct {
+	scheme, host, port, path, query *Str
+}
+
+func strKey(kind string, s *Str) string { return fmt.Sprintf("%s:%p", kind, s) }
+
+// newOpaqueDoc makes a fresh non-empty string standing for an abstract document; all such
+// strings on a path are pairwise distinct (native documents differ in content).
+func (st *State) newOpaqueDoc(name string) *Str {
+	s := st.newSymStr("doc_"+name, 3)
+	st.addDef(Eq(sLen(s), I(3)))
+	for i := 1; i < 3; i++ {
+		st.addDef(inSet(pieceByte(s.p[0], I(int64(i))), "ABCDEFGHIJKLMNOPQRSTUVWXYZabcdefghijklmnopqrstuvwxyz0123456789"))
+	}
+	st.addDef(Eq(pieceByte(s.p[0], I(0)), I('.')))
+	var docs []*Str
+	if v, ok := st.ghost["docs"]; ok {
+		docs = v.([]*Str)
+	}
+	for _, d := range docs {
+		st.addDef(Not(st.sEq(d, s)))
+	}
+	st.ghost["docs"] = append(append([]*Str(nil), docs...), s)
+	return s
+}
 
 func (e *Engine) registerDomain() {
+	r := func(name string, f Intrinsic) { e.intr[name] = f }
+
+	// ------------------------------------------------------------ vn: abstract documents
+	r(vnPkg+".JWT", func(c *CallCtx) []Outcome {
+		// JWT(name, wellFormed bool, nonceKind int, nonce string, naud int, aud0, aud1 string, exp time.Time, sigValid bool) string
+		name := mustConstStr(c.args[0])
+		// the exp claim of a real JWT has one-second granularity
+		expNs := c.args[7].(TimeV).ns
+		expNs = Mul(DivFloor(expNs, I(1e9)), I(1e9))
+		spec := &tokSpec{name: name, wellFormed: c.args[1].(*Term), nonceKind: c.args[2].(*Term), nonce: c.args[3].(*Str),
+			naud: c.args[4].(*Term), aud: []*Str{c.args[5].(*Str), c.args[6].(*Str)}, exp: expNs, sigValid: c.args[8].(*Term)}
+		c.st.assume(And(Le(I(0), spec.nonceKind), Le(spec.nonceKind, I(4)), Le(I(0), spec.naud), Le(spec.naud, I(2))))
+		s := c.st.newOpaqueDoc("jwt_" + name)
+		spec.s = s
+		var toks []*tokSpec
+		if v, ok := c.st.ghost["toks"]; ok {
+			toks = v.([]*tokSpec)
+		}
+		c.st.ghost["toks"] = append(append([]*tokSpec(nil), toks...), spec)
+		c.st.inputs = append(c.st.inputs, InputRec{Name: "jwt:" + name, Kind: "doc"})
+		return c.ret(s)
+	})
+	r(vnPkg+".NewJSON", func(c *CallCtx) []Outcome {
+		name := mustConstStr(c.args[0])
+		d := &jsonDoc{name: name, kind: c.args[1].(*Term)}
+		c.st.assume(And(Le(I(0), d.kind), Le(d.kind, I(3))))
+		id := c.st.newObj(OpaqueV{kind: "jsondoc", data: d})
+		return c.ret(I(int64(id)))
+	})
+	getDoc := func(c *CallCtx) (*jsonDoc, int) {
+		id := mustConstInt(c.args[0])
+		d := c.st.heap.objs[id].(OpaqueV).data.(*jsonDoc)
+		return d, id
+	}
+	r(vnPkg+".JSONStr", func(c *CallCtx) []Outcome {
+		d, id := getDoc(c)
+		nd := &jsonDoc{name: d.name, kind: d.kind, members: append([]jsonMember(nil), d.members...)}
+		nd.members = append(nd.members, jsonMember{name: mustConstStr(c.args[1]), kind: c.args[2].(*Term), str: c.args[3].(*Str)})
+		c.st.assume(And(Le(I(0), c.args[2].(*Term)), Le(c.args[2].(*Term), I(5))))
+		c.st.heap.objs[id] = OpaqueV{kind: "jsondoc", data: nd}
+		return c.ret(nil)
+	})
+	r(vnPkg+".JSONNum", func(c *CallCtx) []Outcome {
+		d, id := getDoc(c)
+		nd := &jsonDoc{name: d.name, kind: d.kind, members: append([]jsonMember(nil), d.members...)}
+		nd.members = append(nd.members, jsonMember{name: mustConstStr(c.args[1]), kind: c.args[2].(*Term), num: c.args[3].(*Term)})
+		c.st.assume(And(Le(I(0), c.args[2].(*Term)), Le(c.args[2].(*Term), I(5))))
+		c.st.heap.objs[id] = OpaqueV{kind: "jsondoc", data: nd}
+		return c.ret(nil)
+	})
+	r(vnPkg+".JSONText", func(c *CallCtx) []Outcome {
+		d, _ := getDoc(c)
+		s := c.st.newOpaqueDoc("json_" + d.name)
+		nd := *d
+		nd.s = s
+		var docs []*jsonDoc
+		if v, ok := c.st.ghost["jsondocs"]; ok {
+			docs = v.([]*jsonDoc)
+		}
+		c.st.ghost["jsondocs"] = append(append([]*jsonDoc(nil), docs...), &nd)
+		return c.ret(s)
+	})
+	r(vnPkg+".URL", func(c *CallCtx) []Outcome {
+		// URL(scheme, host, port, path, query string) string  -- scheme://host[:port]path[?query]
+		sp := &urlSpec{scheme: c.args[0].(*Str), host: c.args[1].(*Str), port: c.args[2].(*Str), path: c.args[3].(*Str), query: c.args[4].(*Str)}
+		s := sConcat(sp.scheme, constStr("://"))
+		s = sConcat(s, sp.host)
+		if pc, ok := sp.port.Const(); !ok || pc != "" {
+			if !ok {
+				// a symbolic port must be non-empty (the harness says so); "" is passed as a constant
+				c.st.assume(Gt(sLen(sp.port), I(0)))
+			}
+			s = sConcat(sConcat(s, constStr(":")), sp.port)
+		}
+		s = sConcat(s, sp.path)
+		if qc, ok := sp.query.Const(); !ok || qc != "" {
+			s = sConcat(sConcat(s, constStr("?")), sp.query)
+		}
+		// force a fresh identity
+		s = &Str{p: append([]Piece(nil), s.p...)}
+		c.st.ghost[strKey("url", s)] = sp
+		return c.ret(s)
+	})
+	r(vnPkg+".KeySet", func(c *CallCtx) []Outcome {
+		name := mustConstStr(c.args[0])
+		return c.ret(IfaceV{t: c.e.namedType(jwxJWK, "Set"), v: OpaqueV{kind: "keyset", data: name}})
+	})
+	r(vnPkg+".SameKeySet", func(c *CallCtx) []Outcome {
+		a, b := c.args[0].(IfaceV), c.args[1].(IfaceV)
+		if a.t == nil || b.t == nil {
+			return c.ret(B(a.t == nil && b.t == nil))
+		}
+		return c.ret(B(a.v.(OpaqueV).data == b.v.(OpaqueV).data))
+	})
+
+	// ------------------------------------------------------------ net/url
+	r("net/url.QueryEscape", func(c *CallCtx) []Outcome { return c.ret(c.st.queryEscape(c.args[0].(*Str))) })
+	r("(net/url.Values).Encode", func(c *CallCtx) []Outcome {
+		m := c.args[0].(MapV)
+		if m.obj == 0 {
+			return c.ret(emptyStr)
+		}
+		mo := c.st.heap.objs[m.obj].(*MapObj)
+		type kv struct {
+			k  string
+			vs []Value
+		}
+		var kvs []kv
+		for _, en := range mo.entries {
+			k, ok := en.k.(*Str).Const()
+			if !ok {
+				unm("Values.Encode with symbolic keys")
+			}
+			kvs = append(kvs, kv{k, c.e.sliceValues(c.st, en.v)})
+		}
+		sort.Slice(kvs, func(i, j int) bool { return kvs[i].k < kvs[j].k })
+		out := emptyStr
+		first := true
+		for _, e := range kvs {
+			for _, v := range e.vs {
+				if !first {
+					out = sConcat(out, constStr("&"))
+				}
+				first = false
+				out = sConcat(out, constStr(url.QueryEscape(e.k)+"="))
+				out = sConcat(out, c.st.queryEscape(v.(*Str)))
+			}
+		}
+		out = &Str{p: append([]Piece(nil), out.p...)}
+		c.st.ghost[strKey("encoded", out)] = m
+		return c.ret(out)
+	})
+	r("(net/url.Values).Get", func(c *CallCtx) []Outcome {
+		m := c.args[0].(MapV)
+		if m.obj == 0 {
+			return c.ret(emptyStr)
+		}
+		mo := c.st.heap.objs[m.obj].(*MapObj)
+		cands := c.e.mapCandidates(c.st, mo, c.args[1])
+		conds := make([]*Term, len(cands))
+		for i, cd := range cands {
+			conds[i] = cd.cond
+		}
+		sts := c.e.forkMany(c.st, conds)
+		var outs []Outcome
+		for i, s := range sts {
+			if s == nil {
+				continue
+			}
+			if cands[i].index < 0 {
+				outs = append(outs, Outcome{st: s, val: emptyStr})
+				continue
+			}
+			vs := c.e.sliceValues(s, s.heap.objs[m.obj].(*MapObj).entries[cands[i].index].v)
+			if len(vs) == 0 {
+				outs = append(outs, Outcome{st: s, val: emptyStr})
+			} else {
+				outs = append(outs, Outcome{st: s, val: vs[0]})
+			}
+		}
+		return outs
+	})
+	r("net/url.ParseQuery", func(c *CallCtx) []Outcome { return c.e.parseQuery(c, c.args[0].(*Str)) })
+	r("net/url.Parse", func(c *CallCtx) []Outcome { return c.e.urlParse(c, c.args[0].(*Str)) })
+	r("(*net/url.URL).Port", func(c *CallCtx) []Outcome {
+		p := c.args[0].(Ptr)
+		if p.IsNil() {
+			return c.panicOut("nil-deref-url")
+		}
+		if v, ok := c.st.ghost["urlobj:"+ptrKey(p)]; ok {
+			return c.ret(v.(*urlSpec).port)
+		}
+		unm("URL.Port on unmodelled URL")
+		return nil
+	})
+	r("(*net/url.URL).Hostname", func(c *CallCtx) []Outcome {
+		p := c.args[0].(Ptr)
+		if p.IsNil() {
+			return c.panicOut("nil-deref-url")
+		}
+		if v, ok := c.st.ghost["urlobj:"+ptrKey(p)]; ok {
+			return c.ret(v.(*urlSpec).host)
+		}
+		unm("URL.Hostname on unmodelled URL")
+		return nil
+	})
+	r("(*net/url.URL).String", func(c *CallCtx) []Outcome { return c.ret(c.e.opaqueString(c.st, "urlstr")) })
+
+	r("(net/http.Header).Get", func(c *CallCtx) []Outcome {
+		m := c.args[0].(MapV)
+		key := textproto.CanonicalMIMEHeaderKey(mustConstStr(c.args[1]))
+		if m.obj == 0 {
+			return c.ret(emptyStr)
+		}
+		for _, en := range c.st.heap.objs[m.obj].(*MapObj).entries {
+			k, ok := en.k.(*Str).Const()
+			if !ok {
+				unm("http.Header with symbolic keys")
+			}
+			if k == key {
+				vs := c.e.sliceValues(c.st, en.v)
+				if len(vs) > 0 {
+					return c.ret(vs[0])
+				}
+			}
+		}
+		return c.ret(emptyStr)
+	})
+
+	// ------------------------------------------------------------ encodings
+	r("(*encoding/base64.Encoding).EncodeToString", func(c *CallCtx) []Outcome {
+		b := c.args[1].(BytesV)
+		return c.ret(c.st.ufStr("b64", b.s, (sCap(b.s)+2)/3*4, "ABCDEFGHIJKLMNOPQRSTUVWXYZabcdefghijklmnopqrstuvwxyz0123456789+/=", true, true))
+	})
+	r("golang.org/x/oauth2.S256ChallengeFromVerifier", func(c *CallCtx) []Outcome {
+		res := c.st.ufStr("s256", c.args[0].(*Str), 6, "ABCDEFGHIJKLMNOPQRSTUVWXYZabcdefghijklmnopqrstuvwxyz0123456789-_", true, false)
+		c.st.addDef(Ge(sLen(res), I(1)))
+		return c.ret(res)
+	})
+
+	// ------------------------------------------------------------ net/http, io
+	r("net/http.NewRequest", func(c *CallCtx) []Outcome {
+		method, uri, body := c.args[0].(*Str), c.args[1].(*Str), c.args[2].(IfaceV)
+		invalid := c.st.urlInvalid(uri)
+		a, b := c.e.forkOn(c.st, invalid)
+		var outs []Outcome
+		if a != nil {
+			outs = append(outs, Outcome{st: a, val: TupleV{Ptr{}, c.e.newError(a, "parse url")}})
+		}
+		if b != nil {
+			rt := c.e.namedType("net/http", "Request")
+			ut := c.e.namedType("net/url", "URL")
+			u := c.e.newStruct(b, ut, nil)
+			b.ghost["urlraw:"+ptrKey(u)] = uri
+			hdr := MapV{obj: b.newObj(&MapObj{})}
+			var bodyRC Value = IfaceV{}
+			if body.t != nil {
+				bodyRC = IfaceV{t: c.e.namedType("io", "ReadCloser"), v: OpaqueV{kind: "readcloser", data: body.v}}
+			}
+			req := c.e.newStruct(b, rt, map[string]Value{"Method": method, "URL": u, "Header": hdr, "Body": bodyRC})
+			outs = append(outs, Outcome{st: b, val: TupleV{req, IfaceV{}}})
+		}
+		return outs
+	})
+	r("(*net/http.Client).Do", func(c *CallCtx) []Outcome {
+		cl := c.args[0].(Ptr)
+		if cl.IsNil() {
+			return c.panicOut("nil-deref-http-client")
+		}
+		ct := c.e.namedType("net/http", "Client")
+		tr := c.st.getField(cl, ct, "Transport").(IfaceV)
+		if tr.t == nil {
+			unm("http.Client.Do with the default transport (real network)")
+		}
+		rt := c.e.namedType("net/http", "RoundTripper").Underlying().(*types.Interface)
+		var m *types.Func
+		for i := 0; i < rt.NumMethods(); i++ {
+			if rt.Method(i).Name() == "RoundTrip" {
+				m = rt.Method(i)
+			}
+		}
+		fn := c.e.prog.LookupMethod(tr.t, m.Pkg(), "RoundTrip")
+		if fn == nil {
+			unm("transport %v has no RoundTrip", tr.t)
+		}
+		return []Outcome{{st: c.st, tail: &TailCall{fn: FuncV{fn: fn}, args: []Value{tr.v, c.args[1]}}}}
+	})
+	r("io.NopCloser", func(c *CallCtx) []Outcome {
+		rd := c.args[0].(IfaceV)
+		return c.ret(IfaceV{t: c.e.namedType("io", "ReadCloser"), v: OpaqueV{kind: "readcloser", data: rd.v}})
+	})
+	r("io.ReadAll", func(c *CallCtx) []Outcome {
+		rd := c.args[0].(IfaceV)
+		if rd.t == nil {
+			return c.panicOut("nil-reader")
+		}
+		v := rd.v
+		for {
+			if op, ok := v.(OpaqueV); ok && op.kind == "readcloser" {
+				v = op.data.(Value)
+				continue
+			}
+			break
+		}
+		if p, ok := v.(Ptr); ok && !p.IsNil() {
+			if op, ok := c.st.heap.objs[p.obj].(OpaqueV); ok {
+				switch op.kind {
+				case "reader":
+					return c.ret(TupleV{BytesV{s: op.data.(*Str)}, IfaceV{}})
+				case "errreader":
+					return c.ret(TupleV{BytesV{s: emptyStr, isNil: true}, c.e.newError(c.st, "read")})
+				}
+			}
+		}
+		unm("io.ReadAll on unmodelled reader")
+		return nil
+	})
+	r(vnPkg+".FailingReader", func(c *CallCtx) []Outcome {
+		p := Ptr{obj: c.st.newObj(OpaqueV{kind: "errreader"})}
+		return c.ret(IfaceV{t: c.e.namedType("io", "Reader"), v: p})
+	})
+	r("opaque:readcloser.Close", func(c *CallCtx) []Outcome { return c.ret(IfaceV{}) })
+	r("opaque:context.Done", func(c *CallCtx) []Outcome { return c.ret(ChanV{}) })
+	r("opaque:context.Err", func(c *CallCtx) []Outcome { return c.ret(IfaceV{}) })
+	r("opaque:context.Value", func(c *CallCtx) []Outcome { return c.ret(IfaceV{}) })
+
+	// ------------------------------------------------------------ encoding/json
+	r("encoding/json.Unmarshal", func(c *CallCtx) []Outcome { return c.e.jsonUnmarshal(c) })
+
+	// ------------------------------------------------------------ jwx
+	r(jwxJWT+".WithValidate", func(c *CallCtx) []Outcome {
+		return c.ret(IfaceV{t: c.e.namedType(jwxJWT, "ParseOption"), v: OpaqueV{kind: "jwtopt", data: "validate=" + c.args[0].(*Term).String()}})
+	})
+	r(jwxJWT+".WithVerify", func(c *CallCtx) []Outcome {
+		return c.ret(IfaceV{t: c.e.namedType(jwxJWT, "ParseOption"), v: OpaqueV{kind: "jwtopt", data: "verify=" + c.args[0].(*Term).String()}})
+	})
+	r(jwxJWT+".Parse", func(c *CallCtx) []Outcome {
+		opts := c.e.sliceValues(c.st, c.args[1])
+		var names []string
+		for _, o := range opts {
+			op, ok := o.(IfaceV).v.(OpaqueV)
+			if !ok || op.kind != "jwtopt" {
+				unm("jwt.Parse with an unmodelled option")
+			}
+			names = append(names, op.data.(string))
+		}
+		sort.Strings(names)
+		if strings.Join(names, ",") != "validate=false,verify=false" {
+			unm("jwt.Parse with options %v (only parse-without-verify is modelled; verification is jws.Verify)", names)
+		}
+		b, ok := c.args[0].(BytesV)
+		if !ok {
+			unm("jwt.Parse on %T", c.args[0])
+		}
+		var outs []Outcome
+		for _, m := range c.e.lookupToken(c.st, b.s) {
+			if m.spec == nil {
+				// not a harness token: such strings are not JWTs (stated assumption)
+				outs = append(outs, Outcome{st: m.st, val: TupleV{IfaceV{}, c.e.newError(m.st, "not a token")}})
+				continue
+			}
+			a, bb := c.e.forkOn(m.st, m.spec.wellFormed)
+			if a != nil {
+				outs = append(outs, Outcome{st: a, val: TupleV{IfaceV{t: c.e.namedType(jwxJWT, "Token"), v: OpaqueV{kind: "jwt", data: m.spec}}, IfaceV{}}})
+			}
+			if bb != nil {
+				outs = append(outs, Outcome{st: bb, val: TupleV{IfaceV{}, c.e.newError(bb, "malformed token")}})
+			}
+		}
+		return outs
+	})
+	r("opaque:jwt.Get", func(c *CallCtx) []Outcome {
+		ts := c.args[0].(IfaceV).v.(OpaqueV).data.(*tokSpec)
+		claim := mustConstStr(c.args[1])
+		if claim != "nonce" {
+			unm("jwt.Token.Get(%q)", claim)
+		}
+		basic := func(k types.BasicKind) types.Type { return types.Typ[k] }
+		conds := make([]*Term, 5)
+		for k := 0; k < 5; k++ {
+			conds[k] = Eq(ts.nonceKind, I(int64(k)))
+		}
+		sts := c.e.forkMany(c.st, conds)
+		var outs []Outcome
+		for k, s2 := range sts {
+			if s2 == nil {
+				continue
+			}
+			var v Value
+			switch k {
+			case 0:
+				v = TupleV{IfaceV{}, tFalse}
+			case 1:
+				v = TupleV{IfaceV{t: basic(types.String), v: ts.nonce}, tTrue}
+			case 2:
+				v = TupleV{IfaceV{t: basic(types.Float64), v: FloatV{1}}, tTrue}
+			case 3:
+				v = TupleV{IfaceV{t: basic(types.Bool), v: tTrue}, tTrue}
+			default:
+				v = TupleV{IfaceV{t: types.NewSlice(types.NewInterfaceType(nil, nil)), v: SliceV{}}, tTrue}
+			}
+			outs = append(outs, Outcome{st: s2, val: v})
+		}
+		return outs
+	})
+	r("opaque:jwt.Audience", func(c *CallCtx) []Outcome {
+		ts := c.args[0].(IfaceV).v.(OpaqueV).data.(*tokSpec)
+		conds := []*Term{Eq(ts.naud, I(0)), Eq(ts.naud, I(1)), Eq(ts.naud, I(2))}
+		sts := c.e.forkMany(c.st, conds)
+		var outs []Outcome
+		for k, s2 := range sts {
+			if s2 == nil {
+				continue
+			}
+			if k == 0 {
+				outs = append(outs, Outcome{st: s2, val: SliceV{}})
+				continue
+			}
+			vals := make([]Value, k)
+			for i := 0; i < k; i++ {
+				vals[i] = ts.aud[i]
+			}
+			outs = append(outs, Outcome{st: s2, val: c.e.mkSlice(s2, vals)})
+		}
+		return outs
+	})
+	r("opaque:jwt.Expiration", func(c *CallCtx) []Outcome {
+		ts := c.args[0].(IfaceV).v.(OpaqueV).data.(*tokSpec)
+		return c.ret(TimeV{ts.exp})
+	})
+	r(jwxJWS+".WithInferAlgorithmFromKey", func(c *CallCtx) []Outcome {
+		return c.ret(IfaceV{t: c.e.namedType(jwxJWS, "WithKeySetSuboption"), v: OpaqueV{kind: "jwssub", data: "infer=" + c.args[0].(*Term).String()}})
+	})
+	r(jwxJWS+".WithKeySet", func(c *CallCtx) []Outcome {
+		set := c.args[0].(IfaceV)
+		var subs []string
+		for _, o := range c.e.sliceValues(c.st, c.args[1]) {
+			op, ok := o.(IfaceV).v.(OpaqueV)
+			if !ok {
+				unm("jws.WithKeySet suboption")
+			}
+			subs = append(subs, op.data.(string))
+		}
+		return c.ret(IfaceV{t: c.e.namedType(jwxJWS, "VerifyOption"), v: OpaqueV{kind: "jwsopt", data: &jwsKeySetOpt{set: set, subs: strings.Join(subs, ",")}}})
+	})
+	r(jwxJWS+".Verify", func(c *CallCtx) []Outcome {
+		opts := c.e.sliceValues(c.st, c.args[1])
+		if len(opts) != 1 {
+			unm("jws.Verify with %d options (only WithKeySet(set, WithInferAlgorithmFromKey(true)) is modelled)", len(opts))
+		}
+		op, ok := opts[0].(IfaceV).v.(OpaqueV)
+		if !ok || op.kind != "jwsopt" {
+			unm("jws.Verify option")
+		}
+		ko := op.data.(*jwsKeySetOpt)
+		if ko.subs != "infer=true" {
+			unm("jws.Verify key-set suboptions %q", ko.subs)
+		}
+		b := c.args[0].(BytesV)
+		c.st.events = append(c.st.events, "jws.Verify")
+		var outs []Outcome
+		for _, m := range c.e.lookupToken(c.st, b.s) {
+			var valid *Term
+			switch {
+			case ko.set.t == nil || m.spec == nil:
+				valid = tFalse
+			default:
+				ts := m.spec
+				ks := ko.set.v.(OpaqueV).data.(string)
+				if ks == "good" {
+					valid = And(ts.wellFormed, ts.sigValid)
+				} else {
+					k := "sigvalid:" + ts.name + ":" + ks
+					if v, ok := m.st.ghost[k]; ok {
+						valid = v.(*Term)
+					} else {
+						valid = FreshVar("sig_"+ts.name+"_"+ks, SBool)
+						m.st.ghost[k] = valid
+					}
+					valid = And(ts.wellFormed, valid)
+				}
+			}
+			a, bb := c.e.forkOn(m.st, valid)
+			if a != nil {
+				outs = append(outs, Outcome{st: a, val: TupleV{BytesV{s: constStr("{}")}, IfaceV{}}})
+			}
+			if bb != nil {
+				outs = append(outs, Outcome{st: bb, val: TupleV{BytesV{isNil: true, s: emptyStr}, c.e.newError(bb, "verify")}})
+			}
+		}
+		return outs
+	})
 }
+
+type tokMatch struct {
+	st   *State
+	spec *tokSpec // nil: not a harness token
+}
+
+// lookupToken resolves a string to the harness token it equals (forking over the feasible ones).
+func (e *Engine) lookupToken(st *State, s *Str) []tokMatch {
+	var toks []*tokSpec
+	if v, ok := st.ghost["toks"]; ok {
+		toks = v.([]*tokSpec)
+	}
+	for _, t := range toks {
+		if t.s == s {
+			return []tokMatch{{st, t}}
+		}
+	}
+	e.noteAssume("strings that are not harness-built tokens (vn.JWT) are not parseable JWTs")
+	var conds []*Term
+	var none []*Term
+	for _, t := range toks {
+		eq := st.sEq(s, t.s)
+		conds = append(conds, eq)
+		none = append(none, Not(eq))
+	}
+	conds = append(conds, And(none...))
+	sts := e.forkMany(st, conds)
+	var out []tokMatch
+	for i, s2 := range sts {
+		if s2 == nil {
+			continue
+		}
+		if i < len(toks) {
+			out = append(out, tokMatch{s2, toks[i]})
+		} else {
+			out = append(out, tokMatch{s2, nil})
+		}
+	}
+	return out
+}
+
+type jwsKeySetOpt struct {
+	set  IfaceV
+	subs string
+}
+
+// urlInvalid is the uninterpreted predicate "url.Parse(s) fails" with functional consistency.
+func (st *State) urlInvalid(s *Str) *Term {
+	if c, ok := s.Const(); ok {
+		_, err := url.Parse(c)
+		return B(err != nil)
+	}
+	if _, ok := st.ghost[strKey("url", s)]; ok {
+		return tFalse
+	}
+	type app struct {
+		s *Str
+		r *Term
+	}
+	var apps []app
+	if v, ok := st.ghost["urlinvalid"]; ok {
+		apps = v.([]app)
+	}
+	for _, a := range apps {
+		if a.s == s {
+			return a.r
+		}
+	}
+	r := FreshVar("urlinvalid", SBool)
+	for _, a := range apps {
+		st.addDef(Implies(st.sEq(a.s, s), Eq(a.r, r)))
+	}
+	st.ghost["urlinvalid"] = append(append([]app(nil), apps...), app{s, r})
+	return r
+}
+
+// urlParse models url.Parse: exact for constants and for strings built by vn.URL; otherwise
+// (arbitrary symbolic string) an abstract result: error or a URL whose components are unknown.
+func (e *Engine) urlParse(c *CallCtx, s *Str) []Outcome {
+	ut := e.namedType("net/url", "URL")
+	mk := func(st *State, sp *urlSpec) Value {
+		host := sp.host
+		if pc, ok := sp.port.Const(); !ok || pc != "" {
+			host = sConcat(sConcat(host, constStr(":")), sp.port)
+		}
+		u := e.newStruct(st, ut, map[string]Value{"Scheme": sp.scheme, "Host": host, "Path": sp.path, "RawQuery": sp.query})
+		st.ghost["urlobj:"+ptrKey(u)] = sp
+		return u
+	}
+	if cs, ok := s.Const(); ok {
+		u, err := url.Parse(cs)
+		if err != nil {
+			return c.ret(TupleV{Ptr{}, e.newError(c.st, "parse url")})
+		}
+		sp := &urlSpec{scheme: constStr(u.Scheme), host: constStr(u.Hostname()), port: constStr(u.Port()), path: constStr(u.Path), query: constStr(u.RawQuery)}
+		p := mk(c.st, sp).(Ptr)
+		sv := c.st.load(p).(*StructV)
+		n := &StructV{f: append([]Value(nil), sv.f...)}
+		n.f[fieldIndex(ut, "Host")] = constStr(u.Host)
+		n.f[fieldIndex(ut, "Opaque")] = constStr(u.Opaque)
+		n.f[fieldIndex(ut, "Fragment")] = constStr(u.Fragment)
+		c.st.heap.objs[p.obj] = n
+		return c.ret(TupleV{p, IfaceV{}})
+	}
+	if v, ok := c.st.ghost[strKey("url", s)]; ok {
+		return c.ret(TupleV{mk(c.st, v.(*urlSpec)), IfaceV{}})
+	}
+	// abstract: invalid or a URL with unknown components (fresh symbolic strings per source)
+	invalid := c.st.urlInvalid(s)
+	a, b := e.forkOn(c.st, invalid)
+	var outs []Outcome
+	if a != nil {
+		outs = append(outs, Outcome{st: a, val: TupleV{Ptr{}, e.newError(a, "parse url")}})
+	}
+	if b != nil {
+		k := strKey("urlabs", s)
+		var sp *urlSpec
+		if v, ok := b.ghost[k]; ok {
+			sp = v.(*urlSpec)
+		} else {
+			sp = &urlSpec{scheme: b.newSymStr("u_scheme", 5), host: b.newSymStr("u_host", 4), port: constStr(""), path: b.newSymStr("u_path", sCap(s)), query: b.newSymStr("u_query", 4)}
+			b.ghost[k] = sp
+		}
+		outs = append(outs, Outcome{st: b, val: TupleV{mk(b, sp), IfaceV{}}})
+	}
+	return outs
+}
+
+// parseQuery models url.ParseQuery. Encode() output is mapped back to its source (documented
+// round trip); any other string is parsed exactly under the stated assumption that it contains
+// no '%', '+' or ';' (no unescaping needed), with at most `parsequery-max-params` '&' separators.
+func (e *Engine) parseQuery(c *CallCtx, s *Str) []Outcome {
+	st := c.st
+	if v, ok := st.ghost[strKey("encoded", s)]; ok {
+		src := v.(MapV)
+		mo := st.heap.objs[src.obj].(*MapObj)
+		n := &MapObj{entries: append([]MapEntry(nil), mo.entries...)}
+		return c.ret(TupleV{MapV{obj: st.newObj(n)}, IfaceV{}})
+	}
+	if cs, ok := s.Const(); ok {
+		vals, err := url.ParseQuery(cs)
+		mo := &MapObj{}
+		var keys []string
+		for k := range vals {
+			keys = append(keys, k)
+		}
+		sort.Strings(keys)
+		for _, k := range keys {
+			var vs []Value
+			for _, v := range vals[k] {
+				vs = append(vs, constStr(v))
+			}
+			mo.entries = append(mo.entries, MapEntry{k: constStr(k), v: e.mkSlice(st, vs)})
+		}
+		var ev Value = IfaceV{}
+		if err != nil {
+			ev = e.newError(st, "parse query")
+		}
+		return c.ret(TupleV{MapV{obj: st.newObj(mo)}, ev})
+	}
+	e.noteAssume("url.ParseQuery inputs other than Values.Encode() output contain no '%', '+' or ';' (percent-decoding of request queries is outside the model)")
+	bad := st.sContainsAny(s, "%+;")
+	if st.check(Not(bad)) == Unsat {
+		e.endPath(st)
+		return nil
+	}
+	st.assume(Not(bad))
+	k := e.bound("parsequery-max-params", 2)
+	outs := st.sSplitByte(s, '&', k-1)
+	conds := make([]*Term, len(outs))
+	for i, o := range outs {
+		conds[i] = o.cond
+	}
+	sts := e.forkMany(st, conds)
+	var res []Outcome
+	for i, s2 := range sts {
+		if s2 == nil {
+			continue
+		}
+		if outs[i].parts == nil {
+			e.noteAssume(fmt.Sprintf("url.ParseQuery: at most %d parameters per request query (bound parsequery-max-params)", k))
+			e.endPath(s2)
+			continue
+		}
+		res = append(res, e.parseQueryParts(c, s2, outs[i].parts)...)
+	}
+	return res
+}
+
+// parseQueryParts builds the Values map from '&'-separated parts, forking on '=' presence and on
+// emptiness of each part and on key aliasing.
+func (e *Engine) parseQueryParts(c *CallCtx, st *State, parts []*Str) []Outcome {
+	type item struct {
+		st *State
+		mo int
+	}
+	work := []item{{st: st, mo: st.newObj(&MapObj{})}}
+	for _, part := range parts {
+		var next []item
+		for _, it := range work {
+			s := it.st
+			// empty part => skipped
+			emp, non := e.forkOn(s, Eq(sLen(part), I(0)))
+			if emp != nil {
+				next = append(next, item{emp, it.mo})
+			}
+			if non == nil {
+				continue
+			}
+			idx := non.sIndexConst(part, "=")
+			hasEq, noEq := e.forkOn(non, Ge(idx, I(0)))
+			add := func(s2 *State, k, v *Str) {
+				// m[k] = append(m[k], v)
+				mo := s2.heap.objs[it.mo].(*MapObj)
+				cands := e.mapCandidates(s2, mo, k)
+				conds := make([]*Term, len(cands))
+				for i, cd := range cands {
+					conds[i] = cd.cond
+				}
+				sts := e.forkMany(s2, conds)
+				for i, s3 := range sts {
+					if s3 == nil {
+						continue
+					}
+					old := s3.heap.objs[it.mo].(*MapObj)
+					n := &MapObj{entries: append([]MapEntry(nil), old.entries...)}
+					if cands[i].index >= 0 {
+						prev := e.sliceValues(s3, old.entries[cands[i].index].v)
+						n.entries[cands[i].index] = MapEntry{k: old.entries[cands[i].index].k, v: e.mkSlice(s3, append(append([]Value(nil), prev...), v))}
+					} else {
+						n.entries = append(n.entries, MapEntry{k: k, v: e.mkSlice(s3, []Value{v})})
+					}
+					s3.heap.objs[it.mo] = n
+					next = append(next, item{s3, it.mo})
+				}
+			}
+			if hasEq != nil {
+				add(hasEq, hasEq.sSlice(part, I(0), idx), hasEq.sSlice(part, Add(idx, I(1)), sLen(part)))
+			}
+			if noEq != nil {
+				add(noEq, part, emptyStr)
+			}
+		}
+		work = next
+	}
+	var outs []Outcome
+	for _, it := range work {
+		outs = append(outs, Outcome{st: it.st, val: TupleV{MapV{obj: it.mo}, IfaceV{}}})
+	}
+	return outs
+}
+
+// jsonUnmarshal models encoding/json.Unmarshal on abstract documents (vn.JSONText) for targets
+// of type *struct or **struct with string / int fields. Document and member kinds are symbolic;
+// the stub forks on the document kind and on "some member has the wrong kind" only.
+func (e *Engine) jsonUnmarshal(c *CallCtx) []Outcome {
+	st := c.st
+	b, ok := c.args[0].(BytesV)
+	if !ok {
+		unm("json.Unmarshal on %T", c.args[0])
+	}
+	var docs []*jsonDoc
+	if v, ok := st.ghost["jsondocs"]; ok {
+		docs = v.([]*jsonDoc)
+	}
+	var doc *jsonDoc
+	for _, d := range docs {
+		if d.s == b.s {
+			doc = d
+		}
+	}
+	if doc == nil {
+		unm("json.Unmarshal on bytes that are not a harness JSON document")
+	}
+	target := c.args[1].(IfaceV)
+	if target.t == nil {
+		return c.ret(e.newError(st, "json: Unmarshal(nil)"))
+	}
+	pt, ok := target.t.Underlying().(*types.Pointer)
+	if !ok {
+		return c.ret(e.newError(st, "json: Unmarshal(non-pointer)"))
+	}
+	p := target.v.(Ptr)
+	if p.IsNil() {
+		return c.ret(e.newError(st, "json: Unmarshal(nil pointer)"))
+	}
+	conds := []*Term{Eq(doc.kind, I(0)), Eq(doc.kind, I(1)), Eq(doc.kind, I(2)), Eq(doc.kind, I(3))}
+	sts := e.forkMany(st, conds)
+	var outs []Outcome
+	for k, s2 := range sts {
+		if s2 == nil {
+			continue
+		}
+		switch k {
+		case 0:
+			outs = append(outs, Outcome{st: s2, val: e.newError(s2, "json: syntax error")})
+		case 1:
+			if _, isPP := pt.Elem().Underlying().(*types.Pointer); isPP {
+				s2.store(p, Ptr{})
+			}
+			outs = append(outs, Outcome{st: s2, val: IfaceV{}})
+		case 2:
+			outs = append(outs, Outcome{st: s2, val: e.newError(s2, "json: cannot unmarshal non-object")})
+		default:
+			outs = append(outs, e.jsonObject(c, s2, doc, pt, p)...)
+		}
+	}
+	return outs
+}
+
+func (e *Engine) jsonObject(c *CallCtx, st *State, doc *jsonDoc, pt *types.Pointer, p Ptr) []Outcome {
+	elem := pt.Elem()
+	sp := p
+	if pp, isPP := elem.Underlying().(*types.Pointer); isPP {
+		inner := st.load(p).(Ptr)
+		if inner.IsNil() {
+			inner = Ptr{obj: st.newObj(zero(pp.Elem()))}
+			st.store(p, inner)
+		}
+		sp = inner
+		elem = pp.Elem()
+	}
+	stt, ok := elem.Underlying().(*types.Struct)
+	if !ok {
+		unm("json.Unmarshal into %v", elem)
+	}
+	type assign struct {
+		fp   Ptr
+		mem  *jsonMember
+		isStr bool
+	}
+	var failed []*Term
+	var assigns []assign
+	for i := 0; i < stt.NumFields(); i++ {
+		tag := stt.Tag(i)
+		name := stt.Field(i).Name()
+		if j := strings.Index(tag, `json:"`); j >= 0 {
+			rest := tag[j+6:]
+			if k := strings.IndexAny(rest, `",`); k >= 0 {
+				if rest[:k] != "" {
+					name = rest[:k]
+				}
+			}
+		}
+		var mem *jsonMember
+		for k := range doc.members {
+			if doc.members[k].name == name {
+				mem = &doc.members[k]
+			}
+		}
+		if mem == nil {
+			continue
+		}
+		fp := Ptr{obj: sp.obj, path: append(append([]int(nil), sp.path...), i)}
+		ft := stt.Field(i).Type().Underlying()
+		bt, isB := ft.(*types.Basic)
+		switch {
+		case isB && bt.Info()&types.IsString != 0:
+			failed = append(failed, Or(Eq(mem.kind, I(2)), Eq(mem.kind, I(3)), Eq(mem.kind, I(4))))
+			assigns = append(assigns, assign{fp, mem, true})
+		case isB && bt.Info()&types.IsInteger != 0:
+			failed = append(failed, Or(Eq(mem.kind, I(1)), Eq(mem.kind, I(3)), Eq(mem.kind, I(4))))
+			assigns = append(assigns, assign{fp, mem, false})
+		default:
+			failed = append(failed, And(Not(Eq(mem.kind, I(0))), Not(Eq(mem.kind, I(5)))))
+		}
+	}
+	bad, good := e.forkOn(st, Or(failed...))
+	var outs []Outcome
+	if bad != nil {
+		outs = append(outs, Outcome{st: bad, val: e.newError(bad, "json: cannot unmarshal member")})
+	}
+	if good != nil {
+		for _, a := range assigns {
+			old := good.load(a.fp)
+			if a.isStr {
+				present := Eq(a.mem.kind, I(1))
+				// members that stand for documents keep their identity: fork instead of ite
+				isDoc := false
+				if v, ok := good.ghost["docs"]; ok {
+					for _, d := range v.([]*Str) {
+						if d == a.mem.str {
+							isDoc = true
+						}
+					}
+				}
+				if isDoc {
+					good.pendingDocAssign = append(good.pendingDocAssign, docAssign{a.fp, a.mem.str, present})
+					continue
+				}
+				good.store(a.fp, good.sIte(present, a.mem.str, old.(*Str)))
+			} else {
+				good.store(a.fp, Ite(Eq(a.mem.kind, I(2)), a.mem.num, old.(*Term)))
+			}
+		}
+		// resolve document-valued members by forking on presence
+		work := []*State{good}
+		for len(work) > 0 {
+			s := work[0]
+			work = work[1:]
+			if len(s.pendingDocAssign) == 0 {
+				outs = append(outs, Outcome{st: s, val: IfaceV{}})
+				continue
+			}
+			da := s.pendingDocAssign[0]
+			s.pendingDocAssign = append([]docAssign(nil), s.pendingDocAssign[1:]...)
+			y, n := e.forkOn(s, da.present)
+			if y != nil {
+				y.store(da.fp, da.s)
+				work = append(work, y)
+			}
+			if n != nil {
+				work = append(work, n)
+			}
+		}
+	}
+	return outs
+}
+
+type docAssign struct {
+	fp      Ptr
+	s       *Str
+	present *Term
+}
+
+var _ ssa.Value
